@@ -138,6 +138,12 @@ class Prov:
                 return self._phi([self._variant(x, vname) for x in alts])
         return ('variant', t, vname)
 
+    def _variant_base(self, t):
+        """strip field / variant projections: the value a payload was taken out of"""
+        while t[0] in ('field', 'variant'):
+            t = t[1]
+        return t
+
     def _agg_rv(self, t):
         f = self.F.fns[t[1]]
         return f.blocks[t[2]]['stmts'][t[3]]['rv']
@@ -518,6 +524,17 @@ class Prov:
                     return
             if tag == 'residual' and path and path[0] == ('t', '?ok'):
                 return  # infeasible: a residual never takes the Continue edge of a later `?`
+            if tag == 'residual':
+                # from_residual builds an error value (inside Ready/Some wrappers): its Ok side does not exist
+                infeasible = False
+                for st in path:
+                    if st in (('v', 'Ok'), ('v', 'Continue'), ('v', 'Pending'), ('v', 'None')):
+                        infeasible = True
+                        break
+                    if st in (('v', 'Err'), ('v', 'Break')) or st[0] == 't':
+                        break
+                if infeasible:
+                    return
             if tag is not None:
                 args = self.args_of(t)
                 if args:
